@@ -76,12 +76,20 @@ def r1_random_dictator(ctx):
     prog = ctx.prog
     f = prog.find_func("RandomDictator._run_step")
     T = _dictator_branch(ctx, f, f.node, "RandomDictator")
-    wc = [st for st, dv in astx.defs_of(f.node, "winning_cand") if dv is not None]
-    good = len(wc) == 1 and T is not None and astx.u(wc[0].value) == f"list({T}[0])[0]"
+    # the winner is whatever is removed from the profile (found by role, not by name)
     rcs = astx.calls_in(f.node, "remove_cand")
-    good = good and len(rcs) == 1 and astx.u(rcs[0].args[0]) == "winning_cand" and astx.u(rcs[0].args[1]) == f.params[1]
-    el = [dv for st, dv in astx.defs_of(f.node, "elected") if dv is not None]
-    good = good and len(el) == 1 and astx.u(el[0]) == "(frozenset({winning_cand}),)"
+    W = rcs[0].args[0].id if len(rcs) == 1 and rcs[0].args and isinstance(rcs[0].args[0], ast.Name) else None
+    wc = [st for st, dv in astx.defs_of(f.node, W) if dv is not None] if W else []
+    good = len(wc) == 1 and T is not None and astx.u(wc[0].value) == f"list({T}[0])[0]"
+    good = good and len(rcs) == 1 and astx.u(rcs[0].args[1]) == f.params[1]
+    el = []
+    for sc in elect.state_ctor_calls(prog, f):
+        v = elect.state_kwargs(prog, sc).get("elected")
+        if isinstance(v, ast.Name):
+            v = astx.unique_def(f.node, v.id)
+        if v is not None:
+            el.append(v)
+    good = good and len(el) == 1 and astx.u(el[0]) == f"(frozenset({{{W}}}),)"
     ctx.check(good, f, wc[0] if wc else f.node, "RandomDictator: first element of the resolution is elected alone and removed from the profile", "",
               "winner selection / recording / removal changed")
 
